@@ -73,6 +73,7 @@ type Ctx struct {
 	gmodel   *grammarModel
 	fmodel   *fusionModel
 	sguard   *semiGuard
+	lfacts   *lexFacts
 }
 
 func shortPkg(path string) string {
